@@ -16,6 +16,14 @@ import (
 	"strings"
 	"time"
 
+	"go.minekube.com/gate/pkg/edition/java/proto/packet"
+	"go.minekube.com/gate/pkg/edition/java/proto/state/states"
+	"go.minekube.com/gate/pkg/edition/java/proxy"
+	"go.minekube.com/gate/pkg/edition/java/proxy/crypto/keyrevision"
+	"go.minekube.com/gate/pkg/gate/proto"
+	"go.minekube.com/gate/pkg/util/netutil"
+	guuid "go.minekube.com/gate/pkg/util/uuid"
+
 	"verifharness/e2e"
 	"verifharness/lib"
 )
@@ -34,6 +42,7 @@ type op struct {
 	Kind      opKind
 	NameValid bool
 	Key       string // none | expired | invalid   (only meaningful for protocol 759/760)
+	Keyed     string // keyed encryption response shape: sig-ok | sig-bad | nosalt-exact | nosalt-junk | nosalt-empty
 	EncVar    string // good | bad-token-value | bad-token-ct | bad-secret-ct | bad-secret-len
 	UnkVar    int
 	PluginID  int // kPlugin: message id answered (1..n outstanding ones, anything else unsolicited)
@@ -401,6 +410,199 @@ func genWaiting(r *lib.Rng, n int) []op {
 	}
 }
 
+// runKeyed drives a 1.19 - 1.19.2 login that presents a VALID profile key. Such a key cannot be put on
+// the wire (it needs Mojang's signature), so the decoded packets are delivered to the real
+// initialLoginSessionHandler (hook VerifNewInitialLoginHandler) on a recording connection; the key is
+// an e2e.ProfileKey whose data signatures are verified with real RSA.
+func runKeyed(pl plan) (res result) {
+	key, err := rsa.GenerateKey(rand.Reader, 1024)
+	if err != nil {
+		res.Err = "rsa: " + err.Error()
+		return
+	}
+	authn, err := e2e.NewAuth(key, pl.Outcome)
+	if err != nil {
+		res.Err = "auth: " + err.Error()
+		return
+	}
+	ev := e2e.NewEvents(pl.PreLogin)
+	cfg := e2e.Config()
+	cfg.OnlineMode = pl.Online
+	cfg.Compression.Threshold = pl.Threshold
+	cfg.ForceKeyAuthentication = pl.ForceKey
+	p, err := e2e.NewProxy(cfg, ev.Mgr, authn)
+	if err != nil {
+		res.Err = "proxy.New: " + err.Error()
+		return
+	}
+	ev.Bind(p)
+	res.PubKey = authn.PublicKey()
+	res.Secret = pl.Secret
+	profileID, _ := hex.DecodeString(authn.ProfileID)
+	var holder [16]byte
+	copy(holder[:], profileID)
+	rev := keyrevision.LinkedV2
+	if pl.Protocol == e2e.P1_19 {
+		rev = keyrevision.GenericV1
+	}
+	pkey, err := e2e.NewProfileKey(holder, rev)
+	if err != nil {
+		res.Err = "profile key: " + err.Error()
+		return
+	}
+	conn := e2e.NewHandlerConn(pl.Protocol)
+	conn.Install(proxy.VerifNewInitialLoginHandler(p, conn, netutil.NewAddr("play.example.org:25565", "tcp")))
+	defer conn.Close()
+
+	offID := offlineUUID(pl.Name)
+	var issued []byte
+	nWritten, nJoins, nEvents := 0, 0, 0
+	everRegistered, closed := false, false
+	enc := func(b []byte) []byte { ct, _ := rsa.EncryptPKCS1v15(rand.Reader, &key.PublicKey, b); return ct }
+	for _, o := range pl.Ops {
+		var term, desc string
+		var pk proto.Packet
+		switch o.Kind {
+		case kLogin:
+			name := pl.Name
+			if !o.NameValid {
+				name = pl.BadName
+			}
+			term = lib.App("LoginStart", lib.Bool(o.NameValid), "KValid")
+			desc = fmt.Sprintf("login-start name=%q with a valid profile key", name)
+			pk = &packet.ServerLogin{Username: name, PlayerKey: pkey, HolderID: guuid.UUID(holder)}
+		case kEnc:
+			secretCT := enc(pl.Secret)
+			resp := &packet.EncryptionResponse{SharedSecret: secretCT}
+			salt := int64(0x0123456789abcdef)
+			saltBytes := []byte{0x01, 0x23, 0x45, 0x67, 0x89, 0xab, 0xcd, 0xef}
+			tok := issued
+			if tok == nil {
+				tok = []byte{1, 2, 3, 4}
+			}
+			switch o.Keyed {
+			case "sig-ok":
+				resp.Salt, resp.VerifyToken = &salt, pkey.Sign(tok, saltBytes)
+			case "sig-bad":
+				sig := pkey.Sign(tok, saltBytes)
+				sig[len(sig)/2] ^= 0x04
+				resp.Salt, resp.VerifyToken = &salt, sig
+			case "sig-other-salt":
+				resp.Salt, resp.VerifyToken = &salt, pkey.Sign(tok, []byte{9, 9, 9, 9, 9, 9, 9, 9})
+			case "nosalt-exact":
+				resp.VerifyToken = enc(tok)
+			case "nosalt-junk":
+				resp.VerifyToken = []byte("not the verify token")
+			default: // nosalt-empty
+				resp.VerifyToken = nil
+			}
+			// ground truth: with a key presented the token counts only as a signature over token+salt
+			tokenOK := issued != nil && resp.Salt != nil && pkey.VerifyDataSignature(resp.VerifyToken, issued, saltBytes)
+			term = lib.App("EncResp", lib.Bool(tokenOK), "true", "true")
+			desc = fmt.Sprintf("encryption-response keyed %s (token_ok=%v, genuine secret, request seen=%v)", o.Keyed, tokenOK, issued != nil)
+			pk = resp
+		case kPlugin:
+			term, desc = lib.App("PluginResp", lib.Nat(o.PluginID)), fmt.Sprintf("login-plugin-response id=%d", o.PluginID)
+			pk = &packet.LoginPluginResponse{ID: o.PluginID, Success: true, Data: []byte{1}}
+		case kAck:
+			term, desc = "LoginAck", "login-acknowledged (not a packet of this version: unknown id)"
+			pk = nil
+		default:
+			term, desc = "Unknown", "unknown packet id"
+			pk = nil
+		}
+		res.OpTerms = append(res.OpTerms, term)
+		res.OpDescs = append(res.OpDescs, desc)
+		var so stepObs
+		if !closed {
+			conn.Handle(pk)
+			w, encSecret, cl := conn.Snapshot()
+			so.EncOn = encSecret != nil && bytes.Equal(encSecret, pl.Secret)
+			for _, x := range w[nWritten:] {
+				f := "OOther"
+				if x.State != states.LoginState.String() {
+					f = "OPost"
+				} else {
+					switch t := x.Packet.(type) {
+					case *packet.EncryptionRequest:
+						if len(t.VerifyToken) > 0 && bytes.Equal(t.PublicKey, res.PubKey) {
+							f = "OEncRequest"
+							issued = append([]byte{}, t.VerifyToken...)
+						}
+					case *packet.SetCompression:
+						if t.Threshold == pl.Threshold {
+							f = "OSetCompression"
+						}
+					case *packet.ServerLoginSuccess:
+						if t.Username == pl.Name {
+							switch {
+							case bytes.Equal(t.UUID[:], profileID):
+								f = "(OSuccess USession)"
+							case [16]byte(t.UUID) == offID:
+								f = "(OSuccess UOffline)"
+							}
+						}
+					case *packet.Disconnect:
+						f = "ODisconnect"
+					case *packet.LoginPluginMessage:
+						f = lib.App("OPluginMsg", lib.Nat(t.ID))
+					}
+				}
+				if f == "OPost" && len(so.Frames) > 0 && so.Frames[len(so.Frames)-1] == "OPost" {
+					continue
+				}
+				so.Frames = append(so.Frames, f)
+			}
+			nWritten = len(w)
+			if cl {
+				closed = true
+				so.Frames = append(so.Frames, "OClose")
+			}
+			calls := authn.Calls()
+			so.Joins = len(calls) - nJoins
+			nJoins = len(calls)
+			evs := ev.List()
+			evidence := false
+			for _, e := range evs[nEvents:] {
+				if e.Kind == "postlogin" && e.Registered {
+					evidence = true
+				}
+			}
+			nEvents = len(evs)
+			if !cl && p.PlayerCount() > 0 {
+				evidence = true
+			}
+			so.Registered = evidence && !everRegistered
+			everRegistered = everRegistered || evidence
+		}
+		res.Obs = append(res.Obs, so)
+	}
+	for _, jc := range authn.Calls() {
+		res.JoinArgs = append(res.JoinArgs, [2]string{jc.URLServerID, jc.URLUser})
+	}
+	res.Notes = append(res.Notes, "keyed login driven at handler level (decoded packets, recording connection)")
+	return
+}
+
+// genKeyed: login start with a valid profile key, then an encryption response in one of the shapes
+func genKeyed(r *lib.Rng) []op {
+	shapes := []string{"sig-ok", "sig-ok", "sig-bad", "sig-other-salt", "nosalt-exact", "nosalt-exact", "nosalt-junk", "nosalt-empty"}
+	login := op{Kind: kLogin, NameValid: true}
+	e := op{Kind: kEnc, Keyed: shapes[r.Intn(len(shapes))]}
+	switch r.Intn(6) {
+	case 0:
+		return []op{login, {Kind: kPlugin, PluginID: 5}, e}
+	case 1:
+		return []op{login, e, {Kind: kEnc, Keyed: "sig-ok"}}
+	case 2:
+		return []op{e, login}
+	case 3:
+		return []op{login, login, e}
+	default:
+		return []op{login, e}
+	}
+}
+
 func genOps(r *lib.Rng, protocol int) ([]op, string) {
 	encVars := []string{"good", "good", "good", "good", "bad-token-value", "bad-token-ct", "bad-secret-ct", "bad-secret-len",
 		"token-empty", "token-prefix1", "token-prefix3", "token-plus1", "secret-len15", "secret-len32"}
@@ -466,7 +668,7 @@ func main() {
 	rng := lib.NewRng(f.Seed)
 	out := lib.NewOut("C08", f)
 	out.Imports = "From Verif Require Import Model.Login.\n"
-	out.Rule = "protocols 1.8 / 1.19.1 (key window) / 1.20.1 / 1.20.2 / 26.2; online mode 85%, pre-login result none/deny/force-online/force-offline, compression on/off, ForceKeyAuthentication on/off, session outcome profile (40%) or one of 204/401/500/transport error/empty body/bad profile; packet sequences of length <= 6: vanilla exchange with one response variant (good, wrong token, corrupted token ciphertext, corrupted secret ciphertext, 8-byte secret, correctly encrypted tokens of the wrong length: empty / 1-3 byte prefix / issued token + 1 or 4 bytes, secrets of 0/15/17/32 bytes), vanilla with one inserted packet, skipped/repeated steps, invalid names, random sequences over {login start (valid/invalid name, no/expired/forged key), encryption response variants, plugin response (outstanding, duplicate or unsolicited id), login acknowledged, unknown/undecodable packet}; every 6th case has a PreLogin subscriber sending 1-2 login plugin messages, with histories that answer them in any order, duplicate answers, answer unknown ids, or send a second login start / an encryption response before, between or after the answers; non-trivial = the sequence contains a login start AND an encryption response; distinct = distinct (configuration, operations) ignoring key material"
+	out.Rule = "protocols 1.8 / 1.19.1 (key window) / 1.20.1 / 1.20.2 / 26.2; online mode 85%, pre-login result none/deny/force-online/force-offline, compression on/off, ForceKeyAuthentication on/off, session outcome profile (40%) or one of 204/401/500/transport error/empty body/bad profile; packet sequences of length <= 6: vanilla exchange with one response variant (good, wrong token, corrupted token ciphertext, corrupted secret ciphertext, 8-byte secret, correctly encrypted tokens of the wrong length: empty / 1-3 byte prefix / issued token + 1 or 4 bytes, secrets of 0/15/17/32 bytes), vanilla with one inserted packet, skipped/repeated steps, invalid names, random sequences over {login start (valid/invalid name, no/expired/forged key), encryption response variants, plugin response (outstanding, duplicate or unsolicited id), login acknowledged, unknown/undecodable packet}; every 10th case presents a VALID profile key on 1.19/1.19.1 (delivered as decoded packets through the hook VerifNewInitialLoginHandler; key = e2e.ProfileKey with real RSA data signatures) with encryption response shapes salt+valid signature / salt+bad signature / signature over another salt / NO salt + exact token / NO salt + junk / NO salt + empty; every 6th case has a PreLogin subscriber sending 1-2 login plugin messages, with histories that answer them in any order, duplicate answers, answer unknown ids, or send a second login start / an encryption response before, between or after the answers; non-trivial = the sequence contains a login start AND an encryption response; distinct = distinct (configuration, operations) ignoring key material"
 	n := f.Count(300)
 	validAlpha := "abcdefghijklmnopqrstuvwxyzABCDEFGHIJKLMNOPQRSTUVWXYZ0123456789_"
 	plans := make([]plan, n)
@@ -494,6 +696,11 @@ func main() {
 		} else if r.Chance(1, 12) {
 			pl.PreMsgs = 1
 		}
+		if i%10 == 7 { // a VALID profile key on 1.19 / 1.19.1 (handler-level run, see runKeyed)
+			pl.Protocol = []int{e2e.P1_19, e2e.P1_19_1}[(i/10)%2]
+			pl.PreMsgs, pl.Ops, pl.Shape = 0, genKeyed(r), "keyed"
+			pl.Online, pl.PreLogin, pl.Outcome = true, "", e2e.OutProfile
+		}
 		if pl.Shape == "wrong-length" { // make sure nothing else stands between this response and an admission
 			pl.Online, pl.PreLogin, pl.Outcome, pl.ForceKey = true, "", e2e.OutProfile, false
 		}
@@ -506,6 +713,9 @@ func main() {
 	results, errs := e2e.RunParallel(n, 16, func(i int) result {
 		if f.Only >= 0 && f.Only != i {
 			return result{}
+		}
+		if plans[i].Shape == "keyed" {
+			return runKeyed(plans[i])
 		}
 		return run(plans[i])
 	})
